@@ -238,7 +238,7 @@ def strat_single(draw, tier):
     for _ in range(n_pos):
         n = draw(st.integers(1, maxd))
         m = 2**n
-        mode = draw(st.sampled_from(["uniform", "border", "related"]))
+        mode = draw(st.sampled_from(["uniform", "border", "related", "pole"]))
         if mode == "related" and ps:
             # the same x/y numbers at another level, or a child/parent (order-dependent caches)
             q = ps[-1]
@@ -246,7 +246,16 @@ def strat_single(draw, tier):
             m = 2**n
             ps.append([n, q[1] % m, q[2] % m])
             continue
-        if mode == "border":
+        if mode == "pole":
+            # tiles touching or next to a pole: the centre of the square (north) or its corners (south)
+            if draw(st.booleans()):
+                c = 2 ** (n - 1)
+                x = min(m - 1, max(0, c + draw(st.integers(-2, 1))))
+                y = min(m - 1, max(0, c + draw(st.integers(-2, 1))))
+            else:
+                x = draw(st.sampled_from([0, 1, m - 1, max(0, m - 2)]))
+                y = draw(st.sampled_from([0, 1, m - 1, max(0, m - 2)]))
+        elif mode == "border":
             h = 2 ** draw(st.integers(0, n - 1)) if n > 1 else 1
             x = (h + draw(st.integers(-1, 0))) % m
             y = (h + draw(st.integers(-1, 0))) % m
@@ -278,7 +287,7 @@ def exec_lookup(case):
 
 @st.composite
 def strat_lookup(draw, tier):
-    return {"planetary": draw(st.booleans()), "depth": draw(st.integers(0, 10 if tier == "quick" else 14)), "point": draw(gens.sky_points())}
+    return {"planetary": draw(st.booleans()), "depth": draw(st.one_of(st.integers(0, 10), st.integers(11, 26))), "point": draw(gens.sky_points())}
 
 
 def exec_interleaved(case):
